@@ -56,21 +56,44 @@ def history(rng, n_req, sig_extra=()):
         t = 10
         outstanding = {}        # seq -> (kind, log)
         seqs = rng.sample(range(1, 60), n_req)
+        segged = {}             # seq -> True for segments of a segmented message
+        group = None            # (log, ref, total, next k) while the segments of one message are being stored
         for i, sq in enumerate(seqs):
             kind = rng.choice(('submit', 'submit', 'submit', 'enq', 'unbind', 'bind'))
             t += 1
-            if kind == 'submit':
+            if group is not None:
+                log, ref, tot, k = group
+                m = sim.submit(sq, log, log + 100, sar=(ref, k, tot))
+                kind = 'submit'
+                outstanding[sq] = ('submit', log)
+                segged[sq] = True
+                group = (log, ref, tot, k + 1) if k < tot else None
+            elif kind == 'submit' and rng.random() < 0.3 and i + 1 < len(seqs):
+                # a message the library segmented: its segments are requests of their own (answered, answered twice, nacked)
+                tot = rng.choice((2, 3))
+                log = 200 + i
+                m = sim.submit(sq, log, log + 100, sar=(7 + i, 1, tot))
+                outstanding[sq] = ('submit', log)
+                segged[sq] = True
+                group = (log, 7 + i, tot, 2)
+            elif kind == 'submit':
                 m = sim.submit(sq, 200 + i, 300 + i)
+                outstanding[sq] = (kind, 200 + i)
             else:
                 m = sim.request(kind, sq)
+                outstanding[sq] = (kind, 0)
             ln, out = sim.op_put(t, m)
             cases.append(Case(ln, out, None))
-            outstanding[sq] = (kind, 200 + i if kind == 'submit' else 0)
         # responses: matching, duplicates, unknown numbers, wrong types, nacks
         plan = []
         for sq, (kind, log) in outstanding.items():
             right = {'submit': 'submitresp', 'enq': 'enqresp', 'unbind': 'unbindresp', 'bind': 'bindresp'}[kind]
             c = rng.randrange(6)
+            if c == 2 and segged.get(sq):
+                # a wrong-type response carrying the number of a live submit_sm consumes the request: known finding of C01
+                # (wrong-type-response-consumes-request); for a segment it also ends up as the message's last response.
+                # Not generated here, so that this check judges what C13 states on its own.
+                c = 1
             if c == 0:
                 plan.append((sq, right, 'match'))
             elif c == 1:
@@ -109,7 +132,12 @@ def history(rng, n_req, sig_extra=()):
             should = entry is not None and entry[0] == 'submit' and rk in ('submitresp', 'nack')
             classes.add((label, rk, entry[0] if entry else None))
             if fail is None:
-                if should and got_log != 'L%d' % entry[1]:
+                if should and segged.get(sq):
+                    # a segment: the placeholder (message not complete yet) or the message's outcome, never another identity
+                    if res is not sim.em._SUBMIT_SM_SEGMENT and got_log not in ('L%d' % entry[1],):
+                        fail = 'response %s seq %d for a live segment of message L%d handed over with log_id %r' % (
+                            rk, sq, entry[1], got_log)
+                elif should and got_log != 'L%d' % entry[1]:
                     fail = 'response %s seq %d for live submit (log L%d) handed over with log_id %r' % (
                         rk, sq, entry[1], got_log)
                 if not should and got_log:
